@@ -14,7 +14,7 @@ RULE = ("seeded histories on 2-3 tokens: C_InitToken on the free slot, re-initia
         "operations on every token, external removal of a token directory between restarts, restarts. After every call all session handles are read out; periodically and at the end every "
         "token is read out completely (objects with label/value, both PINs by login, flags, label, serial, slot id) and compared with the reference model, which an operation on token A "
         "never changes for token B. Distinct+non-trivial: (operation on A, number of other tokens, what the other tokens held, outcome).")
-PROBES = ["fresh_init_checked", "reinit_ok_checked", "reinit_wrong_pin", "reinit_with_session", "other_token_readout", "other_token_pins_verified", "restart_tokens_checked", "slot_id_formula", "new_free_slot", "token_removed_externally", "sessions_other_token_checked"]
+PROBES = ["fresh_init_checked", "reinit_ok_checked", "reinit_wrong_pin", "reinit_with_session", "other_token_readout", "other_token_pins_verified", "restart_tokens_checked", "slot_id_formula", "new_free_slot", "token_removed_externally", "sessions_other_token_checked", "reinit_old_user_pin_probed"]
 DEATH_IS_VIOLATION = ()
 
 W = {"open": 8, "close": 5, "closeall": 1, "login": 8, "logout": 6, "create": 18, "destroy": 5, "copy": 3, "setlabel": 3, "restart": 2, "reinit": 6, "newtoken": 2, "setpin": 4, "fullcheck": 6, "rmtoken": 1}
@@ -28,8 +28,15 @@ class GW(OW):
             live = []
         pin = tk.so_pin if r.random() < 0.75 else self.near_pin(tk.so_pin)
         ok = (pin == tk.so_pin) and not live
+        old_user = tk.user_pin
         self.emit({"f": "C_InitToken", "slot": t, "pin": pin.hex(), "label": t + r.choice(["", "-b", "-reinit"]), "out": t}, tid, ok=ok)
         self.emit({"f": "C_GetTokenInfo", "slot": t}, tid)
+        if ok and old_user is not None:
+            # the re-initialised token has no user PIN any more - also in THIS process, which still holds the old token state in memory
+            s = self.new_sess()
+            self.emit({"f": "C_OpenSession", "slot": t, "flags": RW, "out": s, "chk": True}, tid)
+            self.emit({"f": "C_Login", "s": s, "user": K.CKU_USER, "pin": old_user.hex(), "chk": True, "reinit_probe": True}, tid)
+            self.emit({"f": "C_CloseSession", "s": s, "chk": True}, tid)
         return True
 
     def s_newtoken(self, tid=0, pid=1):
@@ -138,6 +145,11 @@ def check(plan, r):
                 if not ok and expect:
                     viols.append(_v("C14.reinit_refused", "re-initialisation with the correct SO PIN and no sessions returned %s" % K.rvname(rv), call=f, op=k))
                 if ok: st("reinit_ok_checked")
+        if op.get("reinit_probe"):
+            st("reinit_old_user_pin_probed")
+            if rv != K.CKR_USER_PIN_NOT_INITIALIZED:
+                viols.append(_v("C14.reinit_kept_user_pin", "C_Login(CKU_USER, the user PIN from before the re-initialisation) right after a successful C_InitToken returned %s, expected CKR_USER_PIN_NOT_INITIALIZED" % K.rvname(rv), call="C_Login", op=k))
+                if ok: continue
         w.apply(pid, op, ret)
         # --- observations
         if f == "@slots" or (f in ("@start", "@restart") and ok):
@@ -181,7 +193,7 @@ def check(plan, r):
                 viols.append(_v("C14.label", "token %s has label %r, expected %r (after %s on %s)" % (tk.ref, bytes.fromhex(info["label"]), tk.label, lastop[0], lastop[1]), call="C_GetTokenInfo", op=k, same_token=(lastop[1] == tk.ref)))
             if bool(info["flags"] & K.CKF_USER_PIN_INITIALIZED) != (tk.user_pin is not None):
                 viols.append(_v("C14.userpin_flag", "token %s: CKF_USER_PIN_INITIALIZED=%s, model: user PIN %s (after %s on %s)" % (tk.ref, bool(info["flags"] & K.CKF_USER_PIN_INITIALIZED), "exists" if tk.user_pin is not None else "absent", lastop[0], lastop[1]), call="C_GetTokenInfo", op=k, after=lastop[0], same_token=(lastop[1] == tk.ref)))
-        elif f == "C_Login" and op.get("chk") and s is not None:
+        elif f == "C_Login" and op.get("chk") and not op.get("reinit_probe") and s is not None:
             st("other_token_pins_verified")
             if not ok:
                 viols.append(_v("C14.pin_lost", "the %s PIN of token %s no longer logs in: %s (last operation: %s on %s)" % ("SO" if op["user"] == K.CKU_SO else "user", s.tok, K.rvname(rv), lastop[0], lastop[1]), call="C_Login", op=k, after=lastop[0], same_token=(lastop[1] == s.tok), user=op["user"]))
